@@ -11,6 +11,17 @@ package mkvs
 
 //@ import "context"
 
+//@ func NewWithRoot
+//@   trusted
+//@   modifies nothing
+//@   ensures fresh(result) && result != nil
+//@   note constructs a new tree object over the node database at the given root; nothing is read or written until the tree is used
+
+//@ func New
+//@   trusted
+//@   modifies nothing
+//@   ensures fresh(result) && result != nil
+
 //@ func OverlayTree.Copy
 //@   iface (self OverlayTree, inner KeyValueTree) (result OverlayTree)
 //@   modifies nothing
